@@ -244,6 +244,16 @@ theorem fault_beyond_end (d : Driver) (k : Nat) (κ : Kind) (h : freeCount d ≤
   · trivial
   · exact h
 
+/-- non-vacuity: a K10CR1-shaped driver passes 3 fault points; plan index 7 lies beyond the end -/
+private def demo : Driver :=
+  { name := "demo", nlinks := 1,
+    openP := [.atom 1 .checkClosed, .atom 2 (.tOpen 0),
+              .try_ [.atom 4 .io, .atom 5 .io] allKinds [.atom 6 (.tClose 0)] .reraise, .atom 8 .superOpen],
+    closeP := [.atom 1 .superClose, .atom 2 (.tClose 0)] }
+example : freeCount demo = 3 := by decide
+example : runOpen demo (some (7, .os)) = runOpen demo none := fault_beyond_end demo 7 .os (by decide)
+example : (runOpen demo (some (2, .os))).2 = .raised .os ∧ (runOpen demo none).2 = .ok := by decide
+
 /-- the same for any program, fuel and start state -/
 theorem fault_beyond_end_exec (f : Nat) (p : Prog) (s : St) (k : Nat) (κ : Kind)
     (h : (exec none f p s).1.cnt ≤ k) : exec (some (k, κ)) f p s = exec none f p s :=
@@ -275,6 +285,9 @@ theorem all_plans_of_table (d : Driver) (h : checkAll d = true) :
       exact rowOK_spec (h1 κ (mem_allKinds κ))
     · rw [fault_beyond_end d k κ (Nat.le_of_not_lt hk)]
       exact rowOK_spec h0
+
+example : ∀ plan, Consistent demo.nlinks (runOpen demo plan).1 ∧ (runOpen demo plan).2 ≠ .outOfFuel :=
+  all_plans_of_table demo (by decide)
 
 /-- per-class theorem `exact_<Driver>`: every plan is consistent except the listed ones -/
 theorem all_plans_except_of_table (d : Driver) (bad : List (Nat × Kind)) (h : checkAllExcept d bad = true) :
